@@ -267,9 +267,17 @@ func runC19(c *Ctx) {
 				continue
 			}
 			var walk ssa.CallInstruction
+			isWalk := func(n string) bool { return n == "path/filepath.Walk" || n == "path/filepath.WalkDir" }
 			for _, call := range core.CallsIn(fn) {
-				if n := core.StaticCalleeName(call.Common()); n == "path/filepath.Walk" || n == "path/filepath.WalkDir" {
+				if isWalk(core.StaticCalleeName(call.Common())) {
 					walk = call
+				} else if cal := call.Common().StaticCallee(); cal != nil && core.FuncPkgPath(cal) == toolPkg && walk == nil {
+					// a helper of the tool that walks the path it is given
+					for _, inner := range core.CallsIn(cal) {
+						if isWalk(core.StaticCalleeName(inner.Common())) {
+							walk = call
+						}
+					}
 				}
 			}
 			if walk == nil {
@@ -396,6 +404,25 @@ func runC19(c *Ctx) {
 					if _, isLit := v.(*ssa.Alloc); isLit {
 						return true
 					}
+					// a parameter of a helper that only appends what it is given: what its callers hand it
+					if prm, isPrm := v.(*ssa.Parameter); isPrm && depth < 2 {
+						idx := -1
+						for k, q := range prm.Parent().Params {
+							if q == prm {
+								idx = k
+							}
+						}
+						sites, escapes := eng.CallSitesOf(prm.Parent())
+						if idx < 0 || escapes || len(sites) == 0 {
+							return false
+						}
+						for _, cs := range sites {
+							if idx >= len(cs.Common().Args) || !builtHere(cs.Common().Args[idx], depth+1) {
+								return false
+							}
+						}
+						return true
+					}
 					// a constructor of the package: every return hands out an object it allocated itself
 					if cc, isCall := v.(*ssa.Call); isCall && depth < 2 {
 						g := cc.Call.StaticCallee()
@@ -438,7 +465,7 @@ func runC19(c *Ctx) {
 
 	// ---- R19.8 the order of the report does not depend on the order in which the tasks delivered -------
 	if fn := p.Func(cliPkg, "main"); fn != nil {
-		oa := eng.NewOrderAnalysis(p, []*ssa.Function{fn})
+		oa := eng.NewOrderAnalysis(p, pkgClosure(fn, cliPkg))
 		oa.FindSorts()
 		n8 := 0
 		for _, site := range oa.Sorts {
@@ -951,15 +978,43 @@ func checkFanOut(c *Ctx, p *core.Prog) {
 	}
 	// (c) errs has capacity len(filenames)
 	okCap := false
+	isLenFiles := func(v ssa.Value) bool {
+		call, ok := v.(*ssa.Call)
+		if !ok {
+			return false
+		}
+		bi, ok := call.Call.Value.(*ssa.Builtin)
+		return ok && bi.Name() == "len" && call.Call.Args[0] == filenames
+	}
 	for _, b := range fn.Blocks {
 		for _, in := range b.Instrs {
 			mk, ok := in.(*ssa.MakeChan)
 			if !ok || !strings.Contains(mk.Type().String(), "error") {
 				continue
 			}
-			if call, ok := mk.Size.(*ssa.Call); ok {
-				if bi, ok := call.Call.Value.(*ssa.Builtin); ok && bi.Name() == "len" && call.Call.Args[0] == filenames {
-					okCap = true
+			if isLenFiles(mk.Size) {
+				okCap = true
+			}
+		}
+	}
+	// the channel may be made by a constructor of the package that is handed its capacity
+	if !okCap {
+		for _, call := range core.CallsIn(fn) {
+			g := call.Common().StaticCallee()
+			if g == nil || core.FuncPkgPath(g) != backendPkg || len(g.Blocks) == 0 {
+				continue
+			}
+			for _, gb := range g.Blocks {
+				for _, in := range gb.Instrs {
+					mk, ok := in.(*ssa.MakeChan)
+					if !ok || !strings.Contains(mk.Type().String(), "error") {
+						continue
+					}
+					for k, prm := range g.Params {
+						if mk.Size == ssa.Value(prm) && k < len(call.Common().Args) && isLenFiles(call.Common().Args[k]) {
+							okCap = true
+						}
+					}
 				}
 			}
 		}
@@ -1043,9 +1098,47 @@ func checkExitStructure(c *Ctx, p *core.Prog) {
 		return
 	}
 	var getRes *ssa.Call
+	isGetResults := func(call ssa.CallInstruction) bool {
+		if cal := call.Common().StaticCallee(); cal != nil {
+			return cal.Name() == "GetResults"
+		}
+		return call.Common().IsInvoke() && call.Common().Method.Name() == "GetResults"
+	}
+	helperEstablishes := false
 	for _, call := range core.CallsIn(fn) {
-		if cal := call.Common().StaticCallee(); cal != nil && cal.Name() == "GetResults" {
+		if isGetResults(call) {
 			getRes, _ = call.(*ssa.Call)
+		}
+	}
+	if getRes == nil {
+		// a helper of the tool that fetches (and sorts) the results and hands them back; it may also be the one that ends
+		// the program when there are none
+		for _, call := range core.CallsIn(fn) {
+			cal := call.Common().StaticCallee()
+			if cal == nil || core.FuncPkgPath(cal) != cliPkg || len(cal.Blocks) == 0 {
+				continue
+			}
+			for _, inner := range core.CallsIn(cal) {
+				iv, isV := inner.(*ssa.Call)
+				cv, ok := call.(*ssa.Call)
+				if !isGetResults(inner) || !isV || !ok || !types.Identical(cv.Type(), iv.Type()) {
+					continue
+				}
+				getRes = cv
+				// does every way from the fetch to a return of the helper pass `len(results) != 0` (fatal exits apart)?
+				all, nRet := true, 0
+				for _, b := range cal.Blocks {
+					if _, isRet := b.Instrs[len(b.Instrs)-1].(*ssa.Return); !isRet || b == cal.Recover {
+						continue
+					}
+					nRet++
+					okP, _, _ := nonEmptyOnAllPaths(cal, iv.Block(), b, iv)
+					if !okP {
+						all = false
+					}
+				}
+				helperEstablishes = all && nRet > 0
+			}
 		}
 	}
 	if getRes == nil {
@@ -1097,7 +1190,7 @@ func checkExitStructure(c *Ctx, p *core.Prog) {
 					}
 				}
 			}
-			if !has {
+			if !has && !helperEstablishes {
 				var ls []string
 				for _, l := range pth.Lits {
 					ls = append(ls, fmt.Sprintf("%s=%v", core.AP(l.Cond), l.Truth))
@@ -1124,8 +1217,10 @@ func checkExitStructure(c *Ctx, p *core.Prog) {
 				guardedEmpty = true
 			}
 			if cmp.Op == token.NEQ {
-				if e, ok := cmp.X.(*ssa.Call); ok && p.IsFn(e.Call.StaticCallee(), cliPkg, "outputJSON") {
-					guardedJSON = true
+				if e, ok := cmp.X.(*ssa.Call); ok {
+					if ec := e.Call.StaticCallee(); ec != nil && core.FuncPkgPath(ec) == cliPkg && e.Type().String() == "error" {
+						guardedJSON = true
+					}
 				}
 			}
 		}
@@ -1584,4 +1679,49 @@ func checkToolOutputRules(c *Ctx, p *core.Prog) {
 		}
 	}
 	c.R.RequireMin("R19.15", "regular expressions compiled by the tool", nRe, 1)
+}
+
+
+// nonEmptyOnAllPaths: every way from block `from` to block `to` that passes no fatal exit takes a branch that says
+// len(res) != 0.
+func nonEmptyOnAllPaths(fn *ssa.Function, from, to *ssa.BasicBlock, res ssa.Value) (bool, int, string) {
+	fatalBlock := map[*ssa.BasicBlock]bool{}
+	for _, call := range core.CallsIn(fn) {
+		if isFatal(call) {
+			fatalBlock[call.Block()] = true
+		}
+	}
+	paths, ok := eng.EnumPaths(from, to, func(x *ssa.BasicBlock) bool { return fatalBlock[x] }, 5000)
+	if !ok {
+		return false, 0, "too many paths"
+	}
+	for _, pth := range paths {
+		has := false
+		for _, l := range pth.Lits {
+			bo, ok := l.Cond.(*ssa.BinOp)
+			if !ok {
+				continue
+			}
+			k, isK := core.ConstInt(bo.Y)
+			ln, isLen := bo.X.(*ssa.Call)
+			if !isK || k != 0 || !isLen {
+				continue
+			}
+			bi, isB := ln.Call.Value.(*ssa.Builtin)
+			if !isB || bi.Name() != "len" || ln.Call.Args[0] != res {
+				continue
+			}
+			if (bo.Op == token.EQL && !l.Truth) || ((bo.Op == token.GTR || bo.Op == token.NEQ) && l.Truth) {
+				has = true
+			}
+		}
+		if !has {
+			var ls []string
+			for _, l := range pth.Lits {
+				ls = append(ls, fmt.Sprintf("%s=%v", core.AP(l.Cond), l.Truth))
+			}
+			return false, len(paths), "[" + strings.Join(ls, " ") + "]"
+		}
+	}
+	return true, len(paths), ""
 }
